@@ -197,6 +197,9 @@ package discovery
 //@        && arg(call (*sqlStore).wipeOnSeedChange #1, 2) == ret(call (client.HTTPClient).Get #1).1
 //@        && arg(1) == service.ID && arg(3) == ret(call (client.HTTPClient).Get #1).1 && arg(4) == ret(call (client.HTTPClient).Get #1).2
 //@        && isNilIface(ret(call (*sqlStore).exists #1).1) && ret(call (*sqlStore).exists #1).0 == false
+//@   call (*sqlStore).add #1 requires [response-covers-everything-after-the-timestamp-left-by-the-seed-check]
+//@        did(call (*sqlStore).getTimestamp #2) && isNilIface(ret(call (*sqlStore).getTimestamp #2).1) && arg(call (*sqlStore).getTimestamp #2, 1) == service.ID
+//@        && ret(call (*sqlStore).getTimestamp #2).0 >= arg(call (client.HTTPClient).Get #1, 3)
 //@   call (*sqlStore).updateValidated #1 requires [validated-only-after-own-verification-of-this-entry]
 //@        isNilIface(ret(call .verifier #1)) && same(arg(call .verifier #1, 0), service) && same(arg(call .verifier #1, 1), arg(call (*sqlStore).add #1, 2))
 //@        && isNilIface(ret(call (*sqlStore).add #1).1) && len(arg(1)) == 1 && same(arg(1)[0], *ret(call (*sqlStore).add #1).0)
